@@ -49,7 +49,7 @@ def generate(seed, tier):
     rng = stream(seed, "c11")
     big = tier == "thorough" and rng.random() < 0.15
     names, style = gen_filter(rng, None, p_none=0.6)
-    spec = gen_instance(rng, max_jobs=6 if big else 4, max_machines=5 if big else 4, max_ops=5 if big else 4,
+    spec = gen_instance(rng, sparse_ids=0.03, large=0.008, max_jobs=6 if big else 4, max_machines=5 if big else 4, max_ops=5 if big else 4,
                         positive=True if names else None)
     obs = gen_observers(rng)
     if rng.random() < 0.7:
